@@ -210,6 +210,8 @@ BA(ba_565q, uint64_t, rgb_layout_t, 5, 6, 5) BA(ba_888, uint32_t, rgb_layout_t, 
 PK(pk_565, uint16_t, rgb_layout_t, 5, 6, 5) PK(pk_555, uint16_t, rgb_layout_t, 5, 5, 5) PK(pk_4444, uint16_t, rgba_layout_t, 4, 4, 4, 4)
 PK(pk_332, uint8_t, rgb_layout_t, 3, 3, 2) PK(pk_123, uint8_t, bgr_layout_t, 1, 2, 3) PK(pk_g6, uint8_t, gray_layout_t, 6)
 PK(pk_aaa, uint32_t, rgb_layout_t, 10, 10, 10) PK(pk_8888, uint32_t, rgba_layout_t, 8, 8, 8, 8)
+// 64-bit carriers: channels that end at, straddle and lie above bit 31
+PK(pk_8888q, uint64_t, rgba_layout_t, 8, 8, 8, 8) PK(pk_cccq, uint64_t, rgb_layout_t, 12, 12, 12) PK(pk_gggg, uint64_t, rgba_layout_t, 16, 16, 16, 16) PK(pk_565q, uint64_t, rgb_layout_t, 5, 6, 5)
 
 template <class T> void all_groups(const char* name) {
     for (int o = 0; o < (T::bit_aligned ? 8 : 1); ++o)
@@ -225,7 +227,7 @@ int main(int argc, char** argv) {
 #define RUN(T) all_groups<T>(#T);
     RUN(ba_g1) RUN(ba_g2) RUN(ba_g4) RUN(ba_g7) RUN(ba_g1w) RUN(ba_123) RUN(ba_222) RUN(ba_332) RUN(ba_565) RUN(ba_444) RUN(ba_121)
     RUN(ba_565t) RUN(ba_444t) RUN(ba_4444t) RUN(ba_g12) RUN(ba_g16) RUN(ba_2222) RUN(ba_565q) RUN(ba_888) RUN(ba_g9)
-    RUN(pk_565) RUN(pk_555) RUN(pk_4444) RUN(pk_332) RUN(pk_123) RUN(pk_g6) RUN(pk_aaa) RUN(pk_8888)
+    RUN(pk_565) RUN(pk_555) RUN(pk_4444) RUN(pk_332) RUN(pk_123) RUN(pk_g6) RUN(pk_aaa) RUN(pk_8888) RUN(pk_8888q) RUN(pk_cccq) RUN(pk_gggg) RUN(pk_565q)
     if (args.thorough()) {
         if (mine()) exhaustive16<pk_565>("pk_565", 0);
         if (mine()) exhaustive16<pk_4444>("pk_4444", 0);
